@@ -20,7 +20,7 @@ TIERS = {
                   draws=2, gen_draws=1, next_picks=1, first_iter=1,
                   sweep_full=6, sweep_prefix=3, validate_iterated=16,
                   timeout_s=600),
-    'thorough': dict(shards=16, max_dnas=100, random=12, random_max=200,
+    'thorough': dict(shards=16, max_dnas=64, random=12, random_max=200,
                      prefix=30, members=4, corrupt=1, corrupt_kinds=None,
                      flat_kinds=None, draws=6, gen_draws=2, next_picks=2,
                      first_iter=3, sweep_full=30, sweep_prefix=6,
@@ -33,7 +33,7 @@ RULE = ('case = one search-space description. Exhaustive part (same for every '
         '(spaces of <= 2 elements, choices of k <= 3 picks of n <= 4 constant '
         'candidates in all four distinct/sorted modes; conditional choices k <= 3, '
         'n <= 3 with every assignment of 6 representative sub-spaces, nesting '
-        'depth <= 2) whose reference size is <= max_dnas (quick 6, thorough 100), '
+        'depth <= 2) whose reference size is <= max_dnas (quick 6, thorough 64), '
         'plus all 30 single flat choices whatever their size (<= 64 members), plus '
         '12 fixed descriptions with float / custom leaves; partitioned over the '
         'shards by index; followed by `random` seeded larger descriptions per '
